@@ -169,6 +169,10 @@ theorem c10_updatePolicyWN (e : Enf) (sec pt : String) (old new : Rule) (hi : In
   obtain ⟨g1, hpol, hflag⟩ := update_spec hn (old := old) (new := new) g0 ho hw hnew
   unfold Enf.updatePolicyWN
   split
+  · exact hi
+  split
+  · exact hi
+  split
   rename_i e1 okA hp
   have sc := sameCore_persist hp
   obtain ⟨hok, ad⟩ := persist_adrel hi.quiet hi.autoSave (effOK_update pt old new) hp
@@ -222,6 +226,10 @@ theorem c10_updatePoliciesWN (e : Enf) (sec pt : String) (olds news : List Rule)
   obtain ⟨g1, hspec⟩ := updateMany_spec hn g0 olds news hlen hpo hpn hod hnd hnew
   simp only [SpecStore.apply, hall, if_true] at hspec
   unfold Enf.updatePoliciesWN
+  split
+  · exact hi
+  split
+  · exact hi
   split
   · exact hi
   split
